@@ -82,7 +82,7 @@ def gen_spec(rng):
 
 
 def cases(rng, tier):
-	n = 60000 if tier == 'thorough' else 2500
+	n = 60000 if tier == 'thorough' else 6000
 	for _ in range(n):
 		yield ('c', gen_spec(rng), rng.choice(OPS))
 
